@@ -17,11 +17,14 @@ EXPLANATION = (
     "statement is never moved across one it depends on and only non-descendants are moved above a loop; "
     "__build_loop_nest adds the chain StartLoop, Loop(r1..rn), Body, EndLoop(rn..r1), Footer as edges; "
     "__trans_nodes consumes Loop/EndLoop brackets so that each recursive call returns just past the matching "
-    "EndLoop (prefix-depth contract over the base list). Permutation of the node list under hoisting and the "
-    "presence of every loop node in the list are served by a bounded native check, not counted as proved.")
+    "EndLoop (prefix-depth contract over the base list). __hoist also keeps the list a rearrangement of the entry "
+    "list (ghost map of entry positions, injective). That list.index finds each loop node is assumed (it follows from "
+    "the caller putting every loop node in the list and the rearrangement invariant; not an SMT obligation); that the "
+    "graph has an edge for every dependence (graph construction) is served by a bounded def-use companion.")
 TRUSTED = ["networkx contracts (topological_sort, descendants, add_edge) as stated in contracts/flow.py",
            "meta-lemma: chain edges + topological order => Loop(r1) < ... < Loop(rn) < Body < EndLoop(rn) < ... < EndLoop(r1)",
-           "list.index(LoopNode(rank)) finds the node (hoisting permutes the list; bounded check only)"]
+           "list.index(LoopNode(rank)) finds the node (meta-argument from the proved rearrangement invariant and the caller's "
+           "obligation that every loop node is listed; also checked on real graphs, bounded)"]
 _mods = None
 
 
